@@ -23,6 +23,18 @@ def obligation(name, ok, reason=None, where=None, secs=0.0, props=("C08",), clau
                 where=where, kind="frame", model=None, reason=reason, external=True, backend="framecheck (syntactic, modular)")
 
 
+def _soften(obs, nat):
+    """Syntactic obligations are stated on the *shape* of the code (aliasing, no cache, deep-copied records, ...).  When one fails
+    and the native oracle of the same property (equality / independence / liveness on real objects) finds nothing wrong, the
+    code was rewritten into a shape the obligation does not recognise: undecided, not a violation."""
+    if nat.get("violations"):
+        return
+    for o in obs:
+        if o["status"] == "refuted":
+            o["status"] = "unknown"
+            o["reason"] = "%s [syntactic obligation not met, but the native oracle of this property finds no misbehaviour: undecided]" % (o.get("reason") or "")
+
+
 def write_text_replay(pid, idx, title, doc, native_cmd=None):
     d = os.path.join(ROOT, "out", pid)
     os.makedirs(d, exist_ok=True)
@@ -263,6 +275,7 @@ def c06(pid, tier, seed):
     else:
         nat = json.loads(p.stdout.decode())
     k = 0
+    _soften(obs, nat)
     for o in [o for o in obs if o["status"] == "refuted"]:
         k += 1
         path = write_text_replay(pid, k, "C06 liveness obligation refuted: %s\n%s" % (o["name"], o["reason"]), dict(property=pid, obligation=o["name"], reason=o["reason"], native=nat["violations"][:5]), cmd)
@@ -362,6 +375,7 @@ def c07(pid, tier, seed):
     p = subprocess.run(cmd, stdout=subprocess.PIPE, stderr=subprocess.PIPE, cwd="/", timeout=900)
     nat = json.loads(p.stdout.decode()) if p.returncode == 0 else {"checks": 0, "violations": [{"what": "native oracle crashed", "net": "-", "detail": p.stderr.decode()[-400:]}]}
     violations, k = [], 0
+    _soften(obs, nat)
     for o in [o for o in obs if o["status"] == "refuted"]:
         k += 1
         path = write_text_replay(pid, k, "C07 obligation refuted: %s\n%s" % (o["name"], o["reason"]), dict(property=pid, obligation=o["name"], reason=o["reason"], native=nat["violations"][:5]), cmd)
@@ -417,6 +431,14 @@ def with_oracle(pid, extra_fn=None):
         base = extra_fn(pid_, tier, seed) if extra_fn else dict(obligations=[], violations=[], bounded=[], trusted=[], assumptions=[])
         entry, viol = oracle_part(pid_, tier, seed, start=100)
         base.setdefault("bounded", []).append(entry)
+        if not viol:
+            # glue obligations are stated on the shape of the code: one that fails while the property's own oracle finds no
+            # misbehaviour means the code was rewritten into an equivalent shape - undecided, not a violation
+            soft = [o for o in base.get("obligations", []) if o["status"] == "refuted" and o.get("clause") == "glue"]
+            for o in soft:
+                o["status"] = "unknown"
+                o["reason"] = "%s [glue obligation not met, but the bounded oracle of this property finds no misbehaviour: undecided]" % (o.get("reason") or "")
+            base["violations"] = [v for v in base.get("violations", []) if v["obligation"] not in soft]
         base.setdefault("violations", []).extend(viol)
         return base
     return run
@@ -432,7 +454,6 @@ def _lean(pid, notes):
 
 
 EXTRA["C16"] = with_oracle("C16", _lean("C16", [
-    "_index_to_edge_comb (binomial unranking, while loop) is not under a Lean contract: bounded oracle only",
     "the generators that call the decoders (skip sampling, probabilities, seeds) are covered by the bounded oracle only"]))
 EXTRA["C13"] = with_oracle("C13", _lean("C13", [
     "only the sign bookkeeping of boundary_matrix is under contract (every entry is +-1; the two routes to each codimension-2 face cancel, in the "
@@ -504,9 +525,15 @@ def c11_glue(pid, tier, seed):
     import ast
     obs = []
 
+    SHAPE = ("not found", "no `json.dumps", "does not return", "does not call")  # the expected code shape is absent: undecided
+
     def ob(name, ok, reason=None, where=None):
         o = obligation("C11/%s" % name, ok, reason=reason, where=where, props=("C11",), clause="glue")
         o["backend"] = "dataflow check on the AST"
+        if not ok and reason and all(any(k in part for k in SHAPE) for part in reason.split("; ")):
+            # the function no longer has the straight-line shape these obligations are stated on (e.g. json.dump(data, f)
+            # instead of dumps + write): nothing wrong was seen, nothing was proved - undecided, never a violation
+            o["status"] = "unknown"
         obs.append(o)
 
     def assigns(fn):
@@ -664,3 +691,192 @@ def c18_cover(pid, tier, seed):
 
 
 EXTRA["C18"] = c18_cover
+
+
+def c12_glue(pid, tier, seed):
+    """Glue obligations of incidence_matrix / adjacency_matrix (C12): the only Python-level part of the matrix
+    code.  Each obligation is a dataflow fact on the AST; three outcomes: the expected flow is there (discharged), a
+    *different* flow is there (refuted: e.g. rows filled from the edge index), or the code no longer has the shape the
+    obligation talks about (unknown -> undecided).  The numeric content of every matrix is bounded-only."""
+    import ast
+    obs = []
+    rel = "xgi/linalg/hypergraph_matrix.py"
+    m = extract.module(rel)
+
+    def ob(name, status, reason=None, fn="incidence_matrix"):
+        o = obligation("C12/%s" % name, status == "ok", reason=reason, where="%s::%s" % (rel, fn), props=("C12",), clause="glue")
+        o["backend"] = "dataflow check on the AST"
+        if status == "unknown":
+            o["status"] = "unknown"
+        obs.append(o)
+
+    def un(e):
+        return ast.unparse(e).replace(" ", "") if e is not None else None
+
+    fn = m.funcs.get("incidence_matrix")
+    if fn is None:
+        for nm in ("index-maps", "inverse-maps", "entries", "assembly", "result-order"):
+            ob("incidence:%s" % nm, "unknown", "incidence_matrix not found")
+    else:
+        asg = {}
+        for n in ast.walk(fn):
+            if isinstance(n, ast.Assign) and len(n.targets) == 1 and isinstance(n.targets[0], ast.Name):
+                asg.setdefault(n.targets[0].id, []).append(n.value)
+        # 1. index maps: X_dict = dict(zip(V, range(N))), N = len(V)
+        res, why = "ok", []
+        views = {}
+        for d in ("node_dict", "edge_dict"):
+            vals = asg.get(d, [])
+            if len(vals) != 1 or not (isinstance(vals[0], ast.Call) and un(vals[0].func) == "dict" and len(vals[0].args) == 1
+                                      and isinstance(vals[0].args[0], ast.Call) and un(vals[0].args[0].func) == "zip" and len(vals[0].args[0].args) == 2):
+                res = "unknown"
+                why.append("%s is not built as dict(zip(ids, range(n)))" % d)
+                continue
+            ids, rng = vals[0].args[0].args
+            views[d] = un(ids)
+            if not (isinstance(rng, ast.Call) and un(rng.func) == "range" and len(rng.args) == 1 and isinstance(rng.args[0], ast.Name)):
+                res = "unknown"
+                why.append("%s: second zip argument is not range(<name>)" % d)
+                continue
+            nvals = asg.get(rng.args[0].id, [])
+            if len(nvals) == 1 and isinstance(nvals[0], ast.Call) and un(nvals[0].func) == "len" and len(nvals[0].args) == 1:
+                if un(nvals[0].args[0]) != un(ids):
+                    res = "refuted" if res != "unknown" else res
+                    why.append("%s: positions run over range(len(%s)) but the ids are %s" % (d, un(nvals[0].args[0]), un(ids)))
+            else:
+                res = "unknown"
+                why.append("%s: the range bound is not len(<the same ids>)" % d)
+        if res == "ok" and views.get("node_dict") == views.get("edge_dict"):
+            res, why = "refuted", ["node and edge index maps are built from the same ids"]
+        ob("incidence:index-maps", res, "; ".join(why) or None)
+        # 2. inverse maps
+        res, why = "ok", []
+        for d, src in (("rowdict", "node_dict"), ("coldict", "edge_dict")):
+            vals = [v for v in asg.get(d, []) if isinstance(v, ast.DictComp)]
+            if len(vals) != 1:
+                res = "unknown"
+                why.append("%s is not a single dict comprehension" % d)
+                continue
+            c = vals[0]
+            g = c.generators[0]
+            if not (len(c.generators) == 1 and isinstance(g.target, ast.Tuple) and len(g.target.elts) == 2 and un(g.iter).endswith(".items()") and not g.ifs):
+                res = "unknown"
+                why.append("%s: unexpected comprehension shape" % d)
+                continue
+            k, v = un(g.target.elts[0]), un(g.target.elts[1])
+            if not (un(c.key) == v and un(c.value) == k):
+                res = "refuted"
+                why.append("%s does not invert its source map" % d)
+            if un(g.iter) != "%s.items()" % src:
+                res = "refuted"
+                why.append("%s inverts %s instead of %s" % (d, un(g.iter)[:-8], src))
+        ob("incidence:inverse-maps", res, "; ".join(why) or None)
+        # 3. entries: nested loop with the three appends
+        res, why = "unknown", ["no `for edge in edge_ids: for node in <members of edge>:` loop nest with appends found"]
+        for outer in [n for n in ast.walk(fn) if isinstance(n, ast.For)]:
+            inner = [n for n in outer.body if isinstance(n, ast.For)]
+            if not inner or not isinstance(outer.target, ast.Name):
+                continue
+            e = outer.target.id
+            loc = {n.targets[0].id: un(n.value) for n in outer.body if isinstance(n, ast.Assign) and isinstance(n.targets[0], ast.Name)}
+            for inn in inner:
+                if not isinstance(inn.target, ast.Name):
+                    continue
+                nd = inn.target.id
+                apps = {}
+                for st in inn.body:
+                    if isinstance(st, ast.Expr) and isinstance(st.value, ast.Call) and isinstance(st.value.func, ast.Attribute) and st.value.func.attr == "append" and len(st.value.args) == 1:
+                        apps[un(st.value.func.value)] = un(st.value.args[0])
+                if not apps:
+                    continue
+                res, why = "ok", []
+                it = un(inn.iter)
+                it = loc.get(it, it)
+                if it not in ("H._edge[%s]" % e, "H.edges.members(%s)" % e):
+                    res = "unknown"
+                    why.append("inner loop iterates %s, not the members of `%s`" % (it, e))
+                if un(outer.iter) != views.get("edge_dict", "edge_ids"):
+                    res = "refuted" if res == "ok" else res
+                    why.append("outer loop iterates %s but columns are indexed over %s" % (un(outer.iter), views.get("edge_dict")))
+                want = {"rows": "node_dict[%s]" % nd, "cols": "edge_dict[%s]" % e, "data": "weight(%s,%s,H)" % (nd, e)}
+                for k, w in want.items():
+                    if k not in apps:
+                        res = "unknown" if res == "ok" else res
+                        why.append("no append to `%s`" % k)
+                    elif apps[k] != w:
+                        res = "refuted"
+                        why.append("`%s` receives %s instead of %s" % (k, apps[k], w))
+                extra = set(apps) - set(want)
+                if extra:
+                    res = "unknown" if res == "ok" else res
+                    why.append("other lists appended to: %s" % sorted(extra))
+        ob("incidence:entries", res, "; ".join(why) or None)
+        # 4. assembly
+        res, why = "ok", []
+        csr = [n for n in ast.walk(fn) if isinstance(n, ast.Call) and un(n.func) == "csr_array" and n.args and isinstance(n.args[0], ast.Tuple) and len(n.args[0].elts) == 2
+               and isinstance(n.args[0].elts[1], ast.Tuple)]
+        if len(csr) != 1:
+            res = "unknown"
+            why.append("no single csr_array((data, (rows, cols)), shape=...) call")
+        else:
+            c = csr[0]
+            if un(c.args[0]) != "(data,(rows,cols))":
+                res = "refuted"
+                why.append("sparse matrix is built from %s, expected (data,(rows,cols))" % un(c.args[0]))
+            shp = {k.arg: un(k.value) for k in c.keywords}.get("shape")
+            if shp != "(num_nodes,num_edges)":
+                res = "refuted" if shp else "unknown"
+                why.append("sparse shape is %s, expected (num_nodes,num_edges)" % shp)
+        zer = [n for n in ast.walk(fn) if isinstance(n, ast.Call) and un(n.func) == "np.zeros" and n.args]
+        sto = [n for n in ast.walk(fn) if isinstance(n, ast.Assign) and isinstance(n.targets[0], ast.Subscript) and un(n.targets[0].value) == "I"]
+        if len(zer) != 1 or len(sto) != 1:
+            res = "unknown" if res == "ok" else res
+            why.append("dense branch is not `I = np.zeros(shape); I[rows, cols] = data`")
+        else:
+            if un(zer[0].args[0]) != "(num_nodes,num_edges)":
+                res = "refuted"
+                why.append("dense shape is %s, expected (num_nodes,num_edges)" % un(zer[0].args[0]))
+            if un(sto[0].targets[0].slice) not in ("rows,cols", "(rows,cols)") or un(sto[0].value) != "data":
+                res = "refuted"
+                why.append("dense store is I[%s] = %s, expected I[rows, cols] = data" % (un(sto[0].targets[0].slice), un(sto[0].value)))
+        ob("incidence:assembly", res, "; ".join(why) or None)
+        # 5. result order
+        rets = sorted((n.lineno, un(n.value)) for n in ast.walk(fn) if isinstance(n, ast.Return) and n.value is not None)
+        last = rets[-1][1] if rets else None
+        if last == "(I,rowdict,coldict)ifindexelseI":
+            ob("incidence:result-order", "ok")
+        elif last and "rowdict" in last and "coldict" in last and last.index("coldict") < last.index("rowdict"):
+            ob("incidence:result-order", "refuted", "the index maps are returned as (edges, nodes): %s" % last)
+        else:
+            ob("incidence:result-order", "unknown", "final return is %s" % last)
+    # adjacency = I I^T, zero diagonal, thresholded by s
+    fn = m.funcs.get("adjacency_matrix")
+    if fn is None:
+        ob("adjacency:product-diagonal-threshold", "unknown", "adjacency_matrix not found", "adjacency_matrix")
+    else:
+        src = [un(n) for n in ast.walk(fn) if isinstance(n, (ast.Assign, ast.Expr))]
+        res, why = "ok", []
+        prod = [x for x in src if x.startswith("A=") and ".dot(" in x]
+        if prod != ["A=I.dot(I.T)"]:
+            res = "refuted" if prod else "unknown"
+            why.append("product is %s, expected A=I.dot(I.T)" % prod)
+        if not any(x == "A.setdiag(0)" for x in src) or not any(x == "np.fill_diagonal(A,0)" for x in src):
+            res = "unknown" if res == "ok" else res
+            why.append("the diagonal is not cleared in both the sparse and the dense branch")
+        thr = sorted(x for x in src if x.startswith("A=(A"))
+        if thr != ["A=(A>=s)*1", "A=(A>=s)*A"]:
+            res = "refuted" if thr else ("unknown" if res == "ok" else res)
+            why.append("thresholding is %s, expected A=(A>=s)*1 / A=(A>=s)*A" % thr)
+        ob("adjacency:product-diagonal-threshold", res, "; ".join(why) or None, "adjacency_matrix")
+    violations = []
+    for i, o in enumerate([o for o in obs if o["status"] == "refuted"]):
+        path = write_text_replay(pid, 50 + i, "C12 glue obligation refuted: %s\n%s" % (o["name"], o["reason"]), dict(property=pid, obligation=o["name"], reason=o["reason"]))
+        violations.append(dict(obligation=o, path=path, reproduced=False, case=None))
+    return dict(obligations=obs, violations=violations, bounded=[], functions=["hypergraph_matrix.incidence_matrix", "hypergraph_matrix.adjacency_matrix"],
+                trusted=["dict(zip(ids, range(len(ids)))) numbers the ids 0..n-1 in iteration order; scipy csr_array((data, (rows, cols)), shape) and numpy fancy assignment "
+                         "place data[k] at (rows[k], cols[k]); .dot, setdiag, fill_diagonal, comparison and product of arrays have their documented meaning"],
+                assumptions=["only the Python glue of incidence_matrix / adjacency_matrix is under contract; degree vector, intersection profile, clique-motif matrix, adjacency tensor, "
+                             "all Laplacians, symmetry / row sums / PSD and sparse-dense agreement are covered by the bounded oracle only (brute-force construction from members())"])
+
+
+EXTRA["C12"] = with_oracle("C12", c12_glue)
